@@ -178,8 +178,9 @@ SPEC = {
                         "text-level oracle on the real library only"],
     },
     "C15": {
-        "LEAN": {"modules": ["GfaProofs.Bridge.Multiply", "GfaProofs.C15", "GfaProofs.C15Graph"], "support": ["GfaModel.Multiply", "GfaModel.MultiplyGraph"],
-                 "theorems": ["Gfa.C15.multiply_lines", "Gfa.C15.multiply_frame", "Gfa.C15.multiply_segments", "Gfa.C15.multiply_nodup",
+        "LEAN": {"modules": ["GfaProofs.Bridge.Multiply", "GfaProofs.C15", "GfaProofs.C15Graph", "GfaProofs.C15Dist"], "support": ["GfaModel.Multiply", "GfaModel.MultiplyGraph"],
+                 "theorems": ["Gfa.C15.multiplyD_closed", "Gfa.C15.multiplyD_nodup", "Gfa.C15.distribute_closed", "Gfa.C15.distribute_nodup",
+                              "Gfa.C15.distribute_origin", "Gfa.C15.thinOne_origin", "Gfa.C15.multiply_lines", "Gfa.C15.multiply_frame", "Gfa.C15.multiply_segments", "Gfa.C15.multiply_nodup",
                               "Gfa.C15.multiply_closed", "Gfa.C15.multiply_one", "Gfa.C15.multiply_zero", "Gfa.C15.mem_copiesFor",
                               "Gfa.C15.divCounts_name", "Gfa.C15.divCounts_segRefs", "Gfa.C15.auto_select_sound", "Gfa.C15.auto_select_equal_R", "Gfa.C15.distribute_covers",
                               "Gfa.C15.distribute_subset", "Gfa.C15.distribute_exact", "Gfa.C15.distribute_window_size",
@@ -191,8 +192,12 @@ SPEC = {
                         "segment and of each dovetail/containment with the identifier substituted), the frame, the segments afterwards, and that "
                         "unique identifiers and the closed reference graph survive; the value of the divided counts is integer floor division by "
                         "definition of the model (checked against the library by the correspondence)",
-                        "link distribution on the graph (which links each copy keeps) is proved on indices (distribute_*) and decided on graphs by the "
-                        "text-level oracle"],
+                        "link distribution is modelled on the graph too (multiplyD: end chosen by policy L/R/auto/equal, each copy keeps the links whose "
+                        "other end is in its window of the signature list, the others are removed with their dependants) and compared with the "
+                        "library by complete observation; proved: closure and distinct identifiers survive (multiplyD_closed/_nodup), no line is "
+                        "invented (distribute_origin), and on indices every link is kept by some copy and each copy keeps n-k+1 (distribute_covers, "
+                        "distribute_exact); that the windows are taken over *signatures* (parallel links to one end share a signature) is mirrored "
+                        "by the model and judged by the oracle; track_origin / conserve_components are oracle-only"],
     },
     "C16": {
         "LEAN": {"modules": ["GfaProofs.Bridge.Geometry", "GfaProofs.C16"], "support": ["GfaModel.Components", "GfaProofs.Lemmas.Closure"],
